@@ -270,12 +270,15 @@ package ast
 //@   pure
 //@   ensures result != nil
 //@ func (*BinaryExprNode).handleCaseInsensitive
-//@   props C10
+//@   props C10 C01
 //@   requires left != nil && right != nil
 //@   pure
 //@   ensures result != nil
+//@   ensures[contains-on-upper-cased-operands] istype(result, *BinaryStringExprNode) && as(result, *BinaryStringExprNode).op == ite(node.op == BinaryOpNotIContains, BinaryOpNotContains, BinaryOpContains)
 //@ func (BinaryOp).IsCaseInsensitiveOp
+//@   props C01
 //@   pure
+//@   ensures result == (op == BinaryOpIContains || op == BinaryOpNotIContains)
 //@ func (*BinaryExprNode).invalidOpTypes
 //@   props C10
 //@   pure
@@ -315,37 +318,44 @@ package ast
 //@   pure
 //@   ensures[typed-or-error] result1 == nil ==> result0 != nil
 //@ func (*BinaryExprNode).handleIsNullOps
-//@   props C10
+//@   props C10 C01
 //@   pure
 //@   ensures[typed-or-error] result1 == nil ==> result0 != nil
+//@   ensures[null-test-on-the-symbol] result1 == nil ==> istype(result0, *IsNilExprNode) && as(result0, *IsNilExprNode).op == node.op && ref(as(result0, *IsNilExprNode).symbol) == ref(node.left)
 //@ func (*BinaryExprNode).handleStringOps
-//@   props C10
+//@   props C10 C01
 //@   pure
 //@   ensures[typed-or-error] result1 == nil ==> result0 != nil
+//@   ensures[same-operator-same-operands] result1 == nil && node.op != BinaryOpIContains && node.op != BinaryOpNotIContains ==> istype(result0, *BinaryStringExprNode) && as(result0, *BinaryStringExprNode).op == node.op && ref(as(result0, *BinaryStringExprNode).left) == ref(node.left) && ref(as(result0, *BinaryStringExprNode).right) == ref(node.right)
+//@   ensures[case-insensitive-becomes-contains] result1 == nil && (node.op == BinaryOpIContains || node.op == BinaryOpNotIContains) ==> istype(result0, *BinaryStringExprNode) && as(result0, *BinaryStringExprNode).op == ite(node.op == BinaryOpNotIContains, BinaryOpNotContains, BinaryOpContains)
 //@ func (*BinaryExprNode).handleBoolOps
-//@   props C10
+//@   props C10 C01
 //@   requires !istype(node.left, *SetFunctionNode) && !istype(node.right, *SetFunctionNode)
 //@   requires constmethod(node.left, GetType) == NodeTypeBool || (constmethod(node.left, GetType) == NodeTypeAnyType && constmethod(node.right, GetType) == NodeTypeBool)
 //@   pure
 //@   ensures[typed-or-error] result1 == nil ==> result0 != nil
+//@   ensures[same-operator-same-operands] result1 == nil ==> istype(result0, *BinaryBoolExprNode) && as(result0, *BinaryBoolExprNode).op == node.op && ref(as(result0, *BinaryBoolExprNode).left) == ref(node.left) && ref(as(result0, *BinaryBoolExprNode).right) == ref(node.right)
 //@ func (*BinaryExprNode).handleDatetimeOps
-//@   props C10
+//@   props C10 C01
 //@   requires !istype(node.left, *SetFunctionNode) && !istype(node.right, *SetFunctionNode)
 //@   requires constmethod(node.left, GetType) == NodeTypeDatetime || (constmethod(node.left, GetType) == NodeTypeAnyType && constmethod(node.right, GetType) == NodeTypeDatetime)
 //@   pure
 //@   ensures[typed-or-error] result1 == nil ==> result0 != nil
+//@   ensures[same-operator-same-operands] result1 == nil ==> istype(result0, *BinaryDatetimeExprNode) && as(result0, *BinaryDatetimeExprNode).op == node.op && ref(as(result0, *BinaryDatetimeExprNode).left) == ref(node.left) && ref(as(result0, *BinaryDatetimeExprNode).right) == ref(node.right)
 //@ func (*BinaryExprNode).handleFloat64Ops
-//@   props C10
+//@   props C10 C01
 //@   requires !istype(node.left, *SetFunctionNode) && !istype(node.right, *SetFunctionNode)
 //@   requires constmethod(node.left, GetType) == NodeTypeFloat64 || (constmethod(node.left, GetType) == NodeTypeAnyType && constmethod(node.right, GetType) == NodeTypeFloat64)
 //@   pure
 //@   ensures[typed-or-error] result1 == nil ==> result0 != nil
+//@   ensures[same-operator-same-operands] result1 == nil ==> istype(result0, *BinaryFloat64ExprNode) && as(result0, *BinaryFloat64ExprNode).op == node.op && ref(as(result0, *BinaryFloat64ExprNode).left) == ref(node.left)
 //@ func (*BinaryExprNode).handleInt64Ops
-//@   props C10
+//@   props C10 C01
 //@   requires !istype(node.left, *SetFunctionNode) && !istype(node.right, *SetFunctionNode)
 //@   requires constmethod(node.left, GetType) == NodeTypeInt64 || (constmethod(node.left, GetType) == NodeTypeAnyType && constmethod(node.right, GetType) == NodeTypeInt64)
 //@   pure
 //@   ensures[typed-or-error] result1 == nil ==> result0 != nil
+//@   ensures[same-operator-same-operands] result1 == nil ==> (istype(result0, *BinaryInt64ExprNode) && as(result0, *BinaryInt64ExprNode).op == node.op && ref(as(result0, *BinaryInt64ExprNode).left) == ref(node.left) && ref(as(result0, *BinaryInt64ExprNode).right) == ref(node.right)) || (istype(result0, *BinaryFloat64ExprNode) && as(result0, *BinaryFloat64ExprNode).op == node.op && ref(as(result0, *BinaryFloat64ExprNode).right) == ref(node.right))
 
 //@ func (*SetFunctionNode).IsCompare
 //@   props C10 C01
